@@ -36,13 +36,14 @@ func (*c17) Rule() string {
 func (*c17) Assumptions() []string {
 	return []string{
 		"fmt.Sprintf of the local toolchain is the executable specification",
-		"outside the equality claim (as stated in the property): %q/%c/%U on ints that are not Unicode code points, '#' with %x/%X on floats, rendering of surplus (EXTRA) arguments",
+		"outside the equality claim (as stated in the property): %q on ints that are not Unicode code points, '#' with %x/%X on floats, rendering of surplus (EXTRA) arguments",
 		"%T is compared with the Tengo type name formatted by %s (Go type names are not Tengo's)",
 		"'*' operands are Ints (documented requirement); other operand types are exercised for totality only",
 	}
 }
 
 var c17Ints = []int64{0, 1, -1, 7, 9, 10, 42, 65, 97, 127, 128, 255, 256, 1000, -1000, 0x263A, 0x1F600, 0x1F642, 0x10000, 0x10FFFF, 0x110000, 0xD800, 0xFFFD,
+	1<<32 + 'A', 1 << 32, -(1 << 32) + 0x263A, 1<<40 + 0x1F600, 1<<63 - 1 - 0xFFFF + 'z', -(1 << 31) - 1 + 'a', 1<<31 + 'b', 0x7FFFFFFF,
 	math.MaxInt32, math.MinInt32, math.MaxInt64, math.MinInt64, math.MaxInt64 - 1, 1 << 53, -(1 << 53), 123456789, -987654321}
 var c17Floats = []float64{0, math.Copysign(0, -1), 1, -1, 0.5, -0.5, 1e21, 1e20, 1e-7, 1e-4, 1e-5, 123456789.125, math.NaN(), math.Inf(1), math.Inf(-1),
 	5e-324, math.MaxFloat64, 1.0 / 3, 100, 1e6, 1e7, 2.5, 3.5, 0.000123456, 123456.789e3, -2.718281828e-10, 1 << 53, 255.99999999}
@@ -246,7 +247,7 @@ func c17Excluded(format string, args []c17Arg) bool {
 			hasFloat = true
 		}
 	}
-	if hasBadCP && strings.ContainsAny(format, "qcU") {
+	if hasBadCP && strings.Contains(format, "q") {
 		return true
 	}
 	if hasFloat && strings.Contains(format, "#") && strings.ContainsAny(format, "xX") {
